@@ -678,10 +678,23 @@ impl QueryJob {
 
         let (relation, tuple) = parse_why_not_target(&input)?;
         let query_start = std::time::Instant::now();
-        let (rules, base_data) = storage
-            .get_rules_and_data(&kg_name)
-            .map_err(|e| format!("Failed to access knowledge graph: {e}"))?;
-        let ctx = ProofContext::new(&rules, &base_data, ProofConfig::default());
+        // Evaluate the target relation so that body atoms over derived relations are
+        // judged against what those relations really contain.
+        let vars: Vec<String> = (0..tuple.arity()).map(|i| format!("V{i}")).collect();
+        let vars = vars.join(", ");
+        let target_query = format!("__query__({vars}) <- {relation}({vars})");
+        let (rules, base_data, derived_data) =
+            match storage.execute_and_get_context(&kg_name, &target_query) {
+                Ok((_, rules, base_data, derived_data, _)) => (rules, base_data, derived_data),
+                Err(_) => {
+                    let (rules, base_data) = storage
+                        .get_rules_and_data(&kg_name)
+                        .map_err(|e| format!("Failed to access knowledge graph: {e}"))?;
+                    (rules, base_data, std::collections::HashMap::new())
+                }
+            };
+        let ctx = ProofContext::new(&rules, &base_data, ProofConfig::default())
+            .with_derived_data(&derived_data);
         let query_us = query_start.elapsed().as_micros() as u64;
 
         let explain_start = std::time::Instant::now();
